@@ -296,9 +296,10 @@ let run_case (x : sx) : Stdlib.String.t =
                     | L (A "4" :: inner) -> RRec (plain inner)
                     | L l -> RPlain (plain l)
                     | _ -> failwith "bad step" in
-                  let is_filter = function L (A "7" :: _) | L (A "8" :: _) | L (A "9" :: _) | L (A "10" :: _) -> true | _ -> false in
+                  let is_filter = function L (A "7" :: _) | L (A "8" :: _) | L (A "9" :: _) | L (A "10" :: _) | L (A "11" :: _) -> true | _ -> false in
                   let op_of = function "0" -> OEq | "1" -> ONe | "2" -> OLt | "3" -> OLe | "4" -> OGt | "5" -> OGe | _ -> failwith "bad operator" in
-                  let fs = List.map (function
+                  let rec fstep_of = function
+                    | L [A "11"; inner] -> FR (fstep_of inner)
                     | L (A "7" :: inner) -> FE (List.map rstep_of inner)
                     | L (A "9" :: inner) -> FN (List.map rstep_of inner)
                     | L (A "10" :: conjs) ->
@@ -321,7 +322,8 @@ let run_case (x : sx) : Stdlib.String.t =
                           | _ -> failwith "bad basic query" in
                         FQ (List.map (function L bs -> List.map bq_of bs | _ -> failwith "bad conjunction") conjs)
                     | L (A "8" :: L inner :: A o :: lit) -> FC (List.map rstep_of inner, op_of o, cp lit)
-                    | x -> FS (rstep_of x)) steps in
+                    | x -> FS (rstep_of x) in
+                  let fs = List.map fstep_of steps in
                   let ks = if List.exists is_filter steps then [] else List.map rstep_of steps in
                   let text = match getf "nodollar", getf "pad", ks with
                     | _ when List.exists is_filter steps -> fchain_path fs
